@@ -639,6 +639,9 @@ class ServerWorld:
         self.handlers = None
         self.mux = None
         self.on_dns_connect = None
+        self.step = -1
+        self.ops = []             # attempt trace, see attempt_oracle: ("Q", step, chan, payload) / ("R", step, sock) / ("C", step, sock, ok)
+        self.dns_req_fn = None    # the real server.main dns_req closure once got_dns_req carries the observer
 
     def pop(self, op=None):
         """the environment's answer to the next socket operation.  ("P", errno, ops) is a PERSISTENT fault rule: it
@@ -663,6 +666,8 @@ def make_sock_class(world):
 
         def connect(self, a):
             it = world.pop("connect")
+            if self.family == DNS_FAMILY:
+                world.ops.append(("C", world.step, self.id, it[0] != "e"))
             if self.family == DNS_FAMILY and world.on_dns_connect is not None:
                 world.on_dns_connect(self, a, it)     # resolv.conf histories: one attempt of DnsProxy.try_send
             if it[0] == "e":
@@ -672,6 +677,8 @@ def make_sock_class(world):
 
         def send(self, data):
             it = world.pop("send")
+            if self.family == DNS_FAMILY:
+                world.ops.append(("S", world.step, self.id, it[0] != "e"))
             if it[0] == "e":
                 world.log.append("S:%d:%s:0" % (self.id, hx(data)))
                 raise OSError(it[1], "scripted send")
@@ -680,6 +687,7 @@ def make_sock_class(world):
 
         def recv(self, n):
             it = world.pop("recv")
+            world.ops.append(("R", world.step, self.id, it[0] != "e"))
             if it[0] == "e":
                 raise OSError(it[1], "scripted recv")
             if it[0] in ("d", "f"):
@@ -725,7 +733,7 @@ def _server_state(world, server):
 
     def cell(fn, name):
         return dict(zip(fn.__code__.co_freevars, [c.cell_contents for c in fn.__closure__]))[name]
-    dnsh = cell(world.mux.got_dns_req, "dnshandlers")
+    dnsh = cell(world.dns_req_fn or world.mux.got_dns_req, "dnshandlers")
     udph = cell(world.mux.got_udp_open, "udphandlers")
 
     def tbl(d):
@@ -735,7 +743,7 @@ def _server_state(world, server):
                                                     len(world.socks))
 
 
-def run_server(to_ns, sysns, events, lbs=32768, resolv=None, trace=None):
+def run_server(to_ns, sysns, events, lbs=32768, resolv=None, trace=None, ops=None):
     """events: (now, frames, ready, io); frames = [(ch, cmdkey, payload, tag)], ready = [sock id],
     io = [("k",) | ("e", errno) | ("d", bytes) | ("f", bytes, (ip, port)) | ("n", k)]
     Drives the real server.main; returns canonical per-step strings.
@@ -773,6 +781,7 @@ def run_server(to_ns, sysns, events, lbs=32768, resolv=None, trace=None):
             raise StopScript()
         now, frames, ready, io = events[state["i"]]
         world.now = now
+        world.step = state["i"]
         world.io = list(io)
         if resolv is not None:
             resolv.at_iteration(state["i"])
@@ -789,6 +798,14 @@ def run_server(to_ns, sysns, events, lbs=32768, resolv=None, trace=None):
 
     def runonce(handlers, mux):
         world.handlers, world.mux = handlers, mux
+        if world.dns_req_fn is None and getattr(mux, "got_dns_req", None) is not None:
+            # observer on the Mux -> server.main interface: which DNS_REQ frame the resolver sockets opened next belong to
+            world.dns_req_fn = mux.got_dns_req
+
+            def seen_dns_req(channel, data, _real=world.dns_req_fn):
+                world.ops.append(("Q", world.step, channel, data))
+                return _real(channel, data)
+            mux.got_dns_req = seen_dns_req
         return real_runonce(handlers, mux)
 
     def gai(host, port, *a):
@@ -857,6 +874,8 @@ def run_server(to_ns, sysns, events, lbs=32768, resolv=None, trace=None):
                 helpers.open = saved_open
             helpers.__dict__.pop("_nameservers", None)
             real_random.setstate(saved_rnd)
+        if ops is not None:
+            ops.extend(world.ops)
     return out
 
 
@@ -1283,6 +1302,145 @@ def oracle_server(prop, to_ns, sysns, evs, steps):
             if unhx(o[3]) not in froms:
                 bad.append(("c11_one_to_one", "step %d: UDP_DATA frame %r matches no received datagram" % (i, o)))
     return bad
+
+
+ATTEMPT_WHAT = ("c10_attempts: one DNS query led to more than 3 resolver attempts - the property allows 'at most three attempts on "
+                "network errors', whatever mixture of connect / send and receive errors (Props/C10.v c10_attempt_budget_whole_life: every run of "
+                "try_send keeps tries <= 3 and tries counts the attempts made so far; c10_target_attempts: a run of try_send, "
+                "entered from dns_req or re-entered from callback, makes at most 3 - tries attempts and advances tries by exactly as many; "
+                "c10_target_retry: a receive error re-sends within the same budget)")
+
+
+def attempt_oracle(ops):
+    """'at most three attempts on network errors', per query, over the WHOLE life of the query (any number of iterations).
+    Looks only at the boundary: ops is the trace the fake environment keeps of (Q) a DNS_REQ frame handed by the real Mux to
+    the real server.main, (C)/(S) connect / send on a resolver socket, (R) recv on a resolver socket.  An attempt = one
+    connect on a fresh resolver socket.  It belongs to the DNS_REQ frame dispatched last before it in the same iteration,
+    or - when a recv on a resolver socket came in between - to the query that socket was opened for.
+    Returns [(what, detail)] and the per-query attempt counts."""
+    owner, hist, cur, cur_step, why = {}, {}, None, None, "the DNS_REQ frame"
+    order = []
+    for op in ops:
+        if op[1] != cur_step:
+            cur, cur_step = None, op[1]
+        if op[0] == "Q":
+            cur = (op[1], len([q for q in order if q[0] == op[1]]), op[2])
+            order.append(cur)
+            hist[cur] = []
+            why = "the DNS_REQ frame"
+        elif op[0] == "R":
+            cur = owner.get(op[2])
+            why = "recv on socket %d -> %s" % (op[2], "data" if op[3] else "error")
+        elif op[0] == "C":
+            if cur is not None:
+                owner[op[2]] = cur
+                hist[cur].append({"iteration": op[1], "socket": op[2], "after": why, "connect": "ok" if op[3] else "error"})
+                why = "connect error on socket %d" % op[2] if not op[3] else why
+        elif op[0] == "S":
+            if cur is not None and hist[cur] and hist[cur][-1]["socket"] == op[2]:
+                hist[cur][-1]["send"] = "ok" if op[3] else "error"
+                if not op[3]:
+                    why = "send error on socket %d" % op[2]
+    bad = []
+    for q in order:
+        if len(hist[q]) > 3:
+            bad.append((ATTEMPT_WHAT, "the DNS_REQ on identifier %d of iteration %d (no. %d of that iteration) was tried %d times on resolver "
+                        "sockets %s: %s" % (q[2], q[0], q[1], len(hist[q]), [a["socket"] for a in hist[q]],
+                                            "; ".join("attempt %d in iteration %d after %s" % (k + 1, a["iteration"], a["after"])
+                                                      for k, a in enumerate(hist[q])))))
+    return bad, [len(hist[q]) for q in order]
+
+
+def gen_attempt_script(rng, quick):
+    """one to three queries, each followed for many iterations by resolver trouble: connect / send errors at dispatch and
+    receive errors (mostly NET_ERRS) on whatever socket the query currently waits on, in any mixture and well past three
+    errors in total; now and then an answer.  Socket ids are predicted with the documented budget (the k-th attempt of the
+    script opens socket k-1); when the code under test leaves the budget the prediction merely goes stale (ready sockets
+    that nobody waits on are ignored by the real loop)."""
+    to_ns = (rng.choice(V4 + V6), rng.choice([53, 0])) if rng.random() < 0.5 else None
+    sysns = [] if to_ns else rng.sample(V4 + V6, rng.randint(0, 3))
+    now = rng.choice([0, 1000])
+    evs, nsock = [], 0
+    live = {}        # chan -> [socket id waited on or None, attempts so far]
+    chans = rng.sample(range(1, 40), 3)
+
+    def attempts(io, budget, p_err):
+        """script the outcomes of one run of try_send: returns (socket id kept or None, attempts made)"""
+        nonlocal nsock
+        made = 0
+        while made < budget:
+            if to_ns is None:
+                io.append(("n", rng.randint(0, 5)))
+            made += 1
+            sid = nsock
+            nsock += 1
+            r = rng.random()
+            if r >= p_err:
+                io.extend([("k",), ("k",)])
+                return sid, made
+            e = ("e", rng.choice(NET_ERRS if rng.random() < 0.9 else OTHER_ERRS))
+            io.extend([e] if rng.random() < 0.5 else [("k",), e])
+            if e[1] not in NET_ERRS:
+                return None, made
+        return None, made
+    p_send = rng.choice([0.0, 0.2, 0.5])
+    for it in range(rng.randint(3, 7 if quick else 10)):
+        now += rng.choice([0, 1, 1, 2, 5])
+        frames, ready, io = [], [], []
+        if it == 0 or (len(live) < len(chans) and rng.random() < 0.3):
+            ch = [c for c in chans if c not in live][0]
+            frames.append((ch, "Q", rand_payload(rng, False), 0))
+            sid, made = attempts(io, 3, p_send)
+            live[ch] = [sid, made]
+        else:
+            # handlers are visited in the order they were created = ascending first socket id; keep it simple: sorted ids
+            for ch in sorted(live, key=lambda c: (live[c][0] is None, live[c][0])):
+                sid, made = live[ch]
+                if sid is None or rng.random() < 0.25:
+                    continue
+                ready.append(sid)
+                if rng.random() < 0.85:
+                    e = rng.choice(NET_ERRS if rng.random() < 0.92 else OTHER_ERRS)
+                    io.append(("e", e))
+                    if e in NET_ERRS:
+                        nsid, m = attempts(io, 3 - made, p_send)
+                        live[ch] = [nsid, made + m]
+                    else:
+                        live[ch] = [None, made]
+                else:
+                    io.append(("d", rand_payload(rng, False)))
+                    live[ch] = [None, made]
+            ready.sort()
+            # beyond the budget: offer the sockets a fourth, fifth ... attempt would have opened as ready with an error too
+            if rng.random() < 0.7:
+                for extra in range(rng.randint(1, 3)):
+                    ready.append(nsock + extra)
+                    io.append(("e", rng.choice(NET_ERRS)))
+        evs.append((now, frames, ready, io))
+    return to_ns, sysns, evs
+
+
+def handmade_attempt_scripts():
+    E = errno
+    out = []
+    # receive errors only: refused three times, and the sockets a 4th / 5th attempt would open are refused as well
+    out.append((("10.0.0.53", 53), [], [(0, [(1, "Q", b"q", 0)], [], []), (1, [], [0], [("e", E.ECONNREFUSED)]),
+                                        (2, [], [1], [("e", E.ECONNREFUSED)]), (3, [], [2], [("e", E.ECONNREFUSED)]),
+                                        (4, [], [3], [("e", E.ECONNREFUSED)]), (5, [], [4], [("d", b"answer of attempt 5")])]))
+    # send error, receive error, receive error, then the socket of a would-be 4th attempt answers
+    out.append((("10.0.0.53", 53), [], [(0, [(1, "Q", b"q", 0)], [], [("k",), ("e", E.ENETUNREACH), ("k",), ("k",)]),
+                                        (1, [], [1], [("e", E.ECONNREFUSED)]), (2, [], [2], [("e", E.EHOSTUNREACH)]),
+                                        (3, [], [3], [("d", b"answer of attempt 4")])]))
+    # connect error twice + ok at dispatch (budget used up), then one receive error
+    out.append((None, ["8.8.8.8"], [(0, [(1, "Q", b"q", 0)], [], [("n", 0), ("e", E.ENETUNREACH), ("n", 0), ("e", E.ETIMEDOUT), ("n", 0), ("k",), ("k",)]),
+                                    (1, [], [2], [("e", E.ECONNREFUSED), ("n", 0)]), (2, [], [3], [("e", E.ECONNREFUSED), ("n", 0)])]))
+    # two queries, errors interleaved: each has its own budget
+    out.append((("10.0.0.53", 53), [], [(0, [(1, "Q", b"a", 0), (2, "Q", b"b", 0)], [], []),
+                                        (1, [], [0, 1], [("e", E.ECONNREFUSED), ("k",), ("k",), ("e", E.ECONNREFUSED), ("k",), ("k",)]),
+                                        (2, [], [2, 3], [("e", E.ECONNREFUSED), ("k",), ("k",), ("e", E.ECONNREFUSED), ("k",), ("k",)]),
+                                        (3, [], [4, 5], [("e", E.ECONNREFUSED), ("e", E.ECONNREFUSED)]),
+                                        (4, [], [6, 7], [("e", E.ECONNREFUSED), ("e", E.ECONNREFUSED)])]))
+    return out
 
 
 def crash_causes(evs, i):
@@ -2031,18 +2189,33 @@ def run_check(ctx, prop):
     for _ in range(400 if quick else 6000):
         t, s, evs = gen_server_script(rng, prop, quick)
         cases.append((t, s, evs, "random"))
-    lines, impls = [], []
+    if prop == "C10":
+        # the three-attempt budget over the whole life of a query: long mixtures of send and receive errors
+        cases += [(t, s, evs, "attempts_handmade") for t, s, evs in handmade_attempt_scripts()]
+        for _ in range(150 if quick else 3000):
+            t, s, evs = gen_attempt_script(rng, quick)
+            cases.append((t, s, evs, "attempts"))
+    lines, impls, opss = [], [], []
     for t, s, evs, kind in cases:
         lines.append(server_line(fx, t, s, evs))
-        impls.append(run_server(t, s, evs))
+        ops = []
+        impls.append(run_server(t, s, evs, ops=ops))
+        opss.append(ops)
     outs = ctx.run_driver(lines)
-    for (t, s, evs, kind), ln, impl, o in zip(cases, lines, impls, outs):
+    for (t, s, evs, kind), ln, impl, o, ops in zip(cases, lines, impls, outs, opss):
         model = split_steps(o)
+        att_viol, att_counts = attempt_oracle(ops)
+        ctx.count("server_dns_queries_dispatched", len(att_counts))
+        for n_att in att_counts:
+            ctx.count("server_query_attempts_%s" % (n_att if n_att <= 3 else "4plus"))
+        n_rerr = sum(1 for op in ops if op[0] == "R" and not op[3])
+        if n_rerr >= 3:
+            ctx.count("server_scripts_with_3plus_receive_errors")
         ctx.count("server_scripts_%s" % kind)
         ctx.count("server_iterations", len(evs))
         ctx.count("server_dns_responses", sum(s_.count(":%d:" % CMD["R"]) for s_ in impl))
         ctx.count("server_end_" + (impl[-1].split(" ")[0] if impl and not impl[-1].startswith("OK") else "OK"))
-        viol = oracle_server(prop, t, s, evs, impl)
+        viol = oracle_server(prop, t, s, evs, impl) + (att_viol if prop == "C10" else [])
         ctx.case(("server", ln), nontrivial=len(impl) > 1,
                  sample={"side": "server", "to_ns": t, "iterations": len(evs), "last_step": impl[-1][:160] if impl else ""})
         if impl != model:
@@ -2081,8 +2254,9 @@ def replay(ctx, rp, prop):
         return bool(v)
     if sc and sc.get("side") == "server":
         t, s, evs = des_server(sc)
-        impl = run_server(t, s, evs)
-        v = oracle_server(prop, t, s, evs, impl)
+        ops = []
+        impl = run_server(t, s, evs, ops=ops)
+        v = oracle_server(prop, t, s, evs, impl) + (attempt_oracle(ops)[0] if prop == "C10" else [])
         print("server script ->", impl[-1] if impl else "", v)
         return bool(v)
     print("nothing replayable in", rp.get("kind"))
@@ -3697,15 +3871,15 @@ def handmade_resolv_histories():
 
 def run_resolv_history(to_ns, rf, evs):
     fresh = ResolvFile(rf.ser()["init"], rf.rewrites, rf.shuffle_seed)
-    trace = []
-    steps = run_server(to_ns, [], evs, resolv=fresh, trace=trace)
-    return steps, trace
+    trace, ops = [], []
+    steps = run_server(to_ns, [], evs, resolv=fresh, trace=trace, ops=ops)
+    return steps, trace, ops
 
 
-def resolv_verdict(prop, to_ns, evs, steps, trace):
+def resolv_verdict(prop, to_ns, evs, steps, trace, ops=()):
     targets = sorted(set(str(a["target"][0]) for a in trace)) or ["127.0.0.1"]
     other = [(w, d) for w, d in oracle_server(prop, to_ns, [] if to_ns else targets, evs, steps) if w != "c10_target" or "attempts" in d]
-    return resolv_oracle(to_ns, evs, steps, trace) + other
+    return resolv_oracle(to_ns, evs, steps, trace) + other + attempt_oracle(ops)[0]
 
 
 def run_c10_resolv(ctx):
@@ -3714,8 +3888,8 @@ def run_c10_resolv(ctx):
     for _ in range(150 if quick else 3000):
         cases.append(gen_resolv_history(rng, quick) + ("random",))
     for to_ns, rf, evs, kind in cases:
-        steps, trace = run_resolv_history(to_ns, rf, evs)
-        viol = resolv_verdict("C10", to_ns, evs, steps, trace)
+        steps, trace, ops = run_resolv_history(to_ns, rf, evs)
+        viol = resolv_verdict("C10", to_ns, evs, steps, trace, ops)
         ctx.count("resolvconf_histories_%s" % kind)
         ctx.count("resolvconf_attempts", len(trace))
         ctx.count("resolvconf_attempts_after_a_rewrite", sum(1 for a in trace if a["seen"]))
@@ -3738,8 +3912,8 @@ def replay_c10_resolv(prop, rp):
     r = rp["replay"]
     to_ns, _, evs = des_server({"to_ns": r["to_ns"], "sysns": [], "events": r["events"]})
     rf = ResolvFile(r["resolv"]["init"], r["resolv"]["rewrites"], r["resolv"].get("shuffle_seed", 0))
-    steps, trace = run_resolv_history(to_ns, rf, evs)
-    v = resolv_verdict(prop, to_ns, evs, steps, trace)
+    steps, trace, ops = run_resolv_history(to_ns, rf, evs)
+    v = resolv_verdict(prop, to_ns, evs, steps, trace, ops)
     for a in trace:
         print("  iteration %d attempt #%d -> %s port %s   (resolv.conf names %s; opened %d times so far)"
               % (a["step"], a["attempt"], a["target"][0], a["target"][1], spec_nameservers(a["text"]) or "nothing", a["reads"]))
